@@ -18,7 +18,7 @@ def run(ctx):
     rng = ctx.rng
     n = 8 if not ctx.thorough else 40
     ctx.rule("all exported optimizers × tasks (min and max) × 2..6 cycles × seeds × serial/thread: an independent deep snapshot after every cycle is compared with result.evolution at the end; "
-             "agent_trend / agent_position / best_* are called on the real result for ranks {0, 1, middle, last} and iteration subsets {all, last, reversed, every other, with repeats} and compared with a direct ranking "
+             "agent_trend / agent_position / best_* are called on the real result for ranks {0, 1, middle, last} and iteration subsets {all, last, reversed, every other, with repeats} and compared with a direct ranking; the recorded history is re-read after the utilities ran (they are readers); "
              "of the recorded generations and with the model; a case = one run; non-trivial = ≥ 3 generations")
     js = jobs.make_jobs(rng, optimizers.names(), ["cont-sym", "cont", "cont-zero", "mixed", "disc"], n, modes=("serial", "serial", "thread"), max_cycles_choices=(2, 3, 4, 6), multi=False)
     for j in js:
@@ -33,6 +33,10 @@ def run(ctx):
         if not ok:
             continue
         evo = r["result"]["evolution"]
+        if r.get("evolution_after_utils") is not None and r["evolution_after_utils"] != evo:
+            k = next(i for i, (a, b) in enumerate(zip(evo, r["evolution_after_utils"])) if a != b)
+            ctx.fail(f"C15/{job['name']}/recorded-generation-altered-by-trend-utilities", f"generation {k} of result.evolution differs after agent_trend / agent_position were called on the result",
+                     oracles.SUITE, {"job": oracles.job_key(job), "generation": k})
         sgn = -1.0 if job["minmax"] == "max" else 1.0
         u = r.get("utils", {})
         for key, val in u.items():
